@@ -78,12 +78,16 @@ Fixpoint bij_ok (l : dpairs) : bool :=
       forallb (fun q => Bool.eqb (String.eqb m (fst q)) (String.eqb r (snd q))) rest && bij_ok rest
   end.
 
+(* a silent --dry prints nothing: the observation RDryQ stands for "RDry or RSkipped" *)
+Definition res_agree (m o : res) : bool :=
+  res_eqb m o || match o, m with RDryQ, RDry | RDryQ, RSkipped => true | _, _ => false end.
+
 Fixpoint agree_run (v : variant) (p : project) (s : state) (l : list ostep) (acc : dpairs) : bool :=
   match l with
   | [] => bij_ok acc
   | e :: r =>
       let '(s', x) := m_step v p s (o_ev e) in
-      res_eqb x (o_res e) && snap_agree 0 (snap_of s') (o_snap e)
+      res_agree x (o_res e) && snap_agree 0 (snap_of s') (o_snap e)
       && agree_run v p s' r (List.app (combine (map snd (sn_cks (snap_of s'))) (map snd (sn_cks (o_snap e)))) acc)
   end.
 
